@@ -53,9 +53,10 @@ structure HalfArm where
 /-- Fields of a placement. -/
 inductive PField | id | col | row | w | h
   deriving DecidableEq, Repr
-/-- The lower pixel of a full-block cell: ` + "`img.At(x, y+1)`" + ` whatever y+1 is (outside the image = the zero colour), or
-    the upper pixel again when the image has no row y+1. -/
-inductive Bottom | read | topIfMissing
+/-- The lower pixel of a block cell: ` + "`img.At(x, y+1)`" + ` whatever y+1 is (outside the image: whatever the image type
+    returns there — the zero colour for image.NRGBA / image.RGBA), or the upper pixel again when the image has no row
+    y+1 (FullBlockImage since F220), or the zero colour when it has no row y+1 (HalfBlockImage since F320). -/
+inductive Bottom | read | topIfMissing | zeroIfMissing
   deriving DecidableEq, Repr
 /-- One axis of (*Vaxis).cellPixelSize: the value starts as ` + "`init`" + ` and becomes ` + "`pix / cells`" + ` when
     ` + "`cells <cellsCmp> cellsLit && pix/cells <quotCmp> quotLit`" + `. -/
@@ -498,13 +499,38 @@ func gen(c *ex.Ctx) {
 		return true
 	})
 	for _, need := range []string{"y := i / hb.width", "x := i - (y * hb.width)", "y *= 2",
-		"tr, tg, tb, ta := toRGB(img.At(x, y))", "br, bg, bb, ba := toRGB(img.At(x, y+1))",
+		"tr, tg, tb, ta := toRGB(img.At(x, y))",
 		"hb.width = img.Bounds().Max.X", "h = img.Bounds().Max.Y", "hb.height = h / 2"} {
 		if !reads[need] {
 			c.Fail("image.go HalfBlockImage.Resize: statement %q not found", need)
 			return
 		}
 	}
+	// the lower pixel: read unconditionally (`br, bg, bb, ba := toRGB(img.At(x, y+1))`: whatever the image type returns
+	// outside its bounds), or — since the F320 repair — only when the image has a row y+1, the four values staying
+	// zero (transparent) otherwise
+	halfBottom := ""
+	switch {
+	case reads["br, bg, bb, ba := toRGB(img.At(x, y+1))"]:
+		halfBottom = ".read"
+	case reads["br, bg, bb, ba = toRGB(img.At(x, y+1))"]:
+		declared := false
+		ast.Inspect(hb.Body, func(n ast.Node) bool {
+			if ds, ok := n.(*ast.DeclStmt); ok && src(c, ds) == "var br, bg, bb, ba uint8" {
+				declared = true
+			}
+			if is, ok := n.(*ast.IfStmt); ok && declared && is.Init == nil && is.Else == nil && len(is.Body.List) == 1 &&
+				src(c, is.Cond) == "y+1 < img.Bounds().Max.Y" && src(c, is.Body.List[0]) == "br, bg, bb, ba = toRGB(img.At(x, y+1))" {
+				halfBottom = ".zeroIfMissing"
+			}
+			return true
+		})
+	}
+	if halfBottom == "" {
+		c.Fail("image.go HalfBlockImage.Resize: how the lower pixel is read was not recognised")
+		return
+	}
+	fmt.Fprintf(&sb, "\n/-- how HalfBlockImage.Resize reads the lower pixel of a cell. -/\ndef halfBlockBottom : Bottom := %s\n", halfBottom)
 	if hsw == nil {
 		c.Fail("image.go HalfBlockImage.Resize: switch not found")
 		return
